@@ -8,10 +8,12 @@ from .version import base_summaries, mk_version, sorted_disjoint, _levels_argv, 
 
 
 def _hull_summary(mir, flat):
-    """get_key_range_for_files / get_key_range_for_multiple_levels by contract: smallest of the smallest keys .. largest of the
-    largest keys (the claim of O7.1, where the defect D4 of the real function is reported)."""
+    """get_key_range_for_files / get_key_range_for_multiple_levels by contract - what O7.1 establishes for the real functions: the start is
+    the smallest of the smallest keys; the end is ONE OF the files' largest keys and carries the largest user key (which of several
+    bounds with that user key is left open: a fresh symbolic key)."""
     ff = mir.struct_fields('FileMetadata'); kf = mir.struct_fields('InternalKey')
     iu, iq, io = kf.index('user_key'), kf.index('sequence_number'), kf.index('operation')
+    counter = [0]
     def pick(c, a, b):
         out = dict(a)
         for i in (iu, iq, io): out[i] = If(c, a[i], b[i])
@@ -27,10 +29,12 @@ def _hull_summary(mir, flat):
                 files += [se.deref(env, x) if isinstance(x, Ref) else x for x in lst]
         if not files: raise Inconclusive('key range of no files')
         sm = [x[ff.index('smallest_key')].fields[0] for x in files]; lg = [x[ff.index('largest_key')].fields[0] for x in files]
-        lo, hi = sm[0], lg[0]
+        lo = sm[0]
         for k in sm[1:]: lo = pick(lt(k, lo), k, lo)
-        for k in lg[1:]: hi = pick(lt(hi, k), k, hi)
-        return lib.one(env, {0: lo, 1: hi, '__ty': 'Range'})
+        counter[0] += 1; n = counter[0]
+        hi = dict(lg[0]); hi[iu] = BitVec('range_end%d_u' % n, 16); hi[iq] = BitVec('range_end%d_s' % n, 64); hi[io] = BitVec('range_end%d_o' % n, 64)
+        cond = And(Or(*[And(hi[iu] == k[iu], hi[iq] == k[iq], hi[io] == k[io]) for k in lg]), *[UGE(hi[iu], k[iu]) for k in lg])
+        return [(cond, {0: lo, 1: hi, '__ty': 'Range'}, env.get('$state'))]
     return f
 
 
@@ -52,8 +56,9 @@ def o7_5_finalize_inputs(mir, tier):
         LF = {l: [w.F(f) for f in fs] for l, fs in lv.items()}
         pre = list(w.pre) + sorted_disjoint(LF[1]) + sorted_disjoint(LF[2]) + sorted_disjoint(LF[3]) + [ULT(f['size'], bv(1 << 40)) for l in LF for f in LF[l]]
         S = base_summaries(mir); P = S['$patterns']
-        P[r'FileMetadata::get_key_range_for_files'] = _hull_summary(mir, True)
-        P[r'FileMetadata::get_key_range_for_multiple_levels'] = _hull_summary(mir, False)
+        if tier == 'quick':          # thorough: both functions are executed from their own MIR (350 s); quick: by the contract O7.1 establishes
+            P[r'FileMetadata::get_key_range_for_files'] = _hull_summary(mir, True)
+            P[r'FileMetadata::get_key_range_for_multiple_levels'] = _hull_summary(mir, False)
         P[r'parking_lot::lock_api::RwLock::(?:read|write)'] = lib.ident
         P[r'CompactionManifest::expanded_compaction_byte_size_limit'] = lambda se, env, pc, c: lib.one(env, BitVec('expanded_limit', 64))
         P[r'VersionChangeManifest::add_compaction_pointer'] = lib.unit
